@@ -3,6 +3,10 @@
 //   doall <out.ndjson> <seed> <tier> <mode: ctl|jitter|free>
 #include "vh/json.h"
 #include "galois/Galois.h"
+#include <boost/iterator/counting_iterator.hpp>
+#include <functional>
+#include <atomic>
+#include <unistd.h>
 #include "galois/Bag.h"
 #include "galois/substrate/ThreadPool.h"
 #ifdef VERIF_FLAVOUR_C
@@ -140,8 +144,54 @@ static void doAllCase(size_t n, unsigned threads, uint64_t s, int kindSel) {
   report(kind, n, CS, STEAL, threads, c, s);
 }
 
+// do_all over a SpecificRange: the caller supplies where every thread's block of [0, N) begins and asks for a sub-range
+// [gb, ge) of it (what the graph classes hand out as allNodesRange / masterNodesRange ...); every element of the
+// sub-range exactly once, nothing outside it
+template <unsigned CS, bool STEAL>
+static void specificCase(size_t N, unsigned threads, uint64_t s) {
+  galois::setActiveThreads(threads);
+  vh::Rng r(s);
+  std::vector<uint32_t> starts(threads + 1, 0);
+  starts[threads] = (uint32_t)N;
+  for (unsigned t = 1; t < threads; ++t) starts[t] = (uint32_t)r.below(N + 1);
+  std::sort(starts.begin(), starts.end());
+  size_t gb, ge;
+  switch (r.below(6)) {
+  case 0: gb = 0; ge = N; break;                                         // everything
+  case 1: gb = 0; ge = r.below(N + 1); break;                            // a prefix
+  case 2: gb = r.below(N + 1); ge = N; break;                            // a suffix
+  case 3: { unsigned t = (unsigned)r.below(threads); size_t lo = starts[t], hi = starts[t + 1];   // strictly inside one thread's block
+            gb = lo + (hi > lo ? r.below(hi - lo) : 0); ge = gb + (hi > gb ? r.below(hi - gb) : 0); break; }
+  default: gb = r.below(N + 1); ge = gb + r.below(N + 1 - gb); break;    // anything (incl. empty and one-element ranges)
+  }
+  Counts c(N);
+  vh::Rng* rp = g_mode == "ctl" ? nullptr : &r;
+  g_cur = "do_all specific N=" + std::to_string(N) + " [" + std::to_string(gb) + "," + std::to_string(ge) + ") threads=" + std::to_string(threads);
+  auto fn = [&](size_t e) { if (e < N) c.hit(e, rp); };
+  typedef boost::counting_iterator<size_t> It;
+  auto range = galois::runtime::makeSpecificRange(It(gb), It(ge), starts.data());
+  arm(threads, s);
+  if (STEAL) galois::do_all(galois::iterate(range), fn, galois::chunk_size<CS>(), galois::steal(), galois::no_stats());
+  else galois::do_all(galois::iterate(range), fn, galois::chunk_size<CS>(), galois::no_stats());
+  disarm();
+  std::vector<VL> bad;
+  VL per(threads, 0);
+  long other = 0, misplaced = 0;
+  for (size_t e = 0; e < N; ++e) {
+    long want = e >= gb && e < ge ? 1 : 0;
+    if (c.cnt[e] != want && bad.size() < 8) bad.push_back({(long long)e, c.cnt[e]});
+    if (c.cnt[e]) { if (c.who[e] >= 0 && c.who[e] < (int)threads) per[c.who[e]]++; else other++; }
+    if (!STEAL && want && c.cnt[e] == 1 && !(e >= starts[c.who[e]] && e < starts[c.who[e] + 1])) ++misplaced;
+  }
+  const char* topo = getenv("GALOIS_VERIF_TOPO");
+  out->line(Rec().str("k", "doall").str("kind", "specific").i("n", ge - gb).i("chunk", CS).i("steal", STEAL ? 1 : 0).i("threads", threads)
+                .str("mode", g_mode).str("topo", topo ? topo : "host").i("seed", s % 1000000007).raw("bad", vh::jarr2(bad))
+                .i("finished", c.finished).arr("per", per).i("foreign", other).i("misplaced", misplaced));
+}
+
 template <unsigned CS>
 static void bothSteal(size_t n, unsigned threads, uint64_t s, int kindSel) {
+  if (kindSel == 5) { specificCase<CS, true>(n, threads, s); specificCase<CS, false>(n, threads, s + 1); return; }
   doAllCase<CS, true>(n, threads, s, kindSel);
   doAllCase<CS, false>(n, threads, s + 1, kindSel);
 }
@@ -227,7 +277,7 @@ int main(int argc, char** argv) {
         for (unsigned cs : {1u, 2u, 3u})
           for (unsigned t = 1; t <= maxT; ++t) {
             if ((n + cs + t + rep) % 2 && !thorough) continue;
-            chunkDispatch(cs, n, t, rng.next(), (int)rng.below(5));
+            chunkDispatch(cs, n, t, rng.next(), (int)rng.below(6));
           }
   } else {
     std::vector<size_t> sizes = {0, 1, 2, 3, 5, 7, 8, 15, 16, 17, 63, 64, 65, 100, 1000, 4095, 4096, 4097, 10000};
@@ -236,7 +286,7 @@ int main(int argc, char** argv) {
       for (unsigned cs : {1u, 2u, 3u, 4u, 16u, 64u, 4096u}) {
         if (!thorough && (n * 7 + cs) % 3 == 0) continue;
         unsigned t = 1 + (unsigned)rng.below(maxT);
-        chunkDispatch(cs, n, t, rng.next(), (int)rng.below(5));
+        chunkDispatch(cs, n, t, rng.next(), (int)rng.below(6));
       }
   }
   if (g_mode == "free" && getenv("GALOIS_VERIF_TOPO")) {
@@ -253,6 +303,30 @@ int main(int argc, char** argv) {
     g_unbalanced = false;
   }
   onEachAndRegions(rng, maxT, ctl ? (thorough ? 300 : 60) : (thorough ? 200 : 40));
+  if (g_mode == "free" && galois::substrate::getThreadPool().getMaxThreads() >= 3) {
+    // last of all: one pool thread is taken away for good (runDedicated, as the network layer does); "all threads" now means
+    // one fewer, and loops sized by what setActiveThreads() answers must still cover everything exactly once
+    auto& tp = galois::substrate::getThreadPool();
+    unsigned poolMax = tp.getMaxThreads();
+    static std::atomic<bool> stop(false);
+    static std::function<void(void)> ded = [] { while (!stop.load()) usleep(500); };
+    tp.runDedicated(ded);
+    unsigned all = galois::setActiveThreads(poolMax + 3);
+    std::vector<VL> counts; VL seq, joined;
+    for (int rep = 0; rep < 3; ++rep) {
+      VL cnt(poolMax + 1, 0); long fin = 0;
+      g_cur = "on_each after runDedicated";
+      galois::on_each([&](unsigned tid, unsigned nt) { __atomic_add_fetch(&cnt[nt == all && tid < poolMax ? tid : poolMax], 1, __ATOMIC_SEQ_CST); __atomic_add_fetch(&fin, 1, __ATOMIC_SEQ_CST); });
+      seq.push_back(all); counts.push_back(cnt); joined.push_back(fin);
+    }
+    out->line(Rec().str("k", "regions").str("mode", g_mode).i("pool", poolMax).i("dedicated", 1).arr("seq", seq).raw("counts", vh::jarr2(counts)).arr("joined", joined));
+    for (size_t n : {(size_t)7, (size_t)1000, (size_t)4097}) {
+      doAllCase<1, false>(n, all, rng.next(), 0);
+      doAllCase<3, false>(n, all, rng.next(), 1);
+      doAllCase<2, true>(n, all, rng.next(), 1);
+    }
+    stop.store(true);
+  }
   fprintf(stderr, "doall: %lld records\n", o.n);
   return 0;
 }
